@@ -99,27 +99,24 @@ impl Middleware for Redirect {
         // and try sending it until we get some status back that is not a
         // redirect.
 
-        let mut base_url = req.url().clone();
-
         while redirect_count < self.attempts {
             redirect_count += 1;
             let r: Request = req.clone();
             let res: ResponseAsync = client.send(r).await?;
             if REDIRECT_CODES.contains(&res.status()) {
                 if let Some(location) = res.header(headers::LOCATION) {
-                    let http_req: &mut http_types::Request = req.as_mut();
-                    *http_req.url_mut() = match Url::parse(location.last().as_str()) {
-                        Ok(valid_url) => {
-                            base_url = valid_url;
-                            base_url.clone()
-                        }
+                    // A relative location is relative to the URL that has just answered.
+                    let url = match Url::parse(location.last().as_str()) {
+                        Ok(valid_url) => valid_url,
                         Err(e) => match e {
                             http_types::url::ParseError::RelativeUrlWithoutBase => {
-                                base_url.join(location.last().as_str())?
+                                req.url().join(location.last().as_str())?
                             }
                             e => return Err(e.into()),
                         },
                     };
+                    let http_req: &mut http_types::Request = req.as_mut();
+                    *http_req.url_mut() = url;
                 }
             } else {
                 break;
